@@ -84,7 +84,7 @@ PROPS["C19"] = {
 
 PROPS["C07"] = {
     "world": "cas", "level": "exploration", "quick_s": 20, "thorough_s": 480,
-    "rule": "one evaluation = one concurrent history of 2..16 callers x 1..12 CAS calls on 1..2 keys against one backend (consul in-memory / etcd mock / gossip store on one node) behind a drawn stack of prefix / metrics / multi(mirroring) wrappers; every invocation of f (between the backend's read and its conditional write) and, for consul, every low-level Get/CAS is a scheduling point; low-level errors are injected before commits; the '-starve' scenarios let an aggressor commit between every read and write of a victim; non-trivial = some CAS was retried because another commit landed in between; distinct = distinct released-task sequence hash among non-trivial runs",
+    "rule": "one evaluation = one concurrent history of 2..16 callers x 1..12 CAS calls on 1..2 keys against one backend (consul in-memory / etcd mock / gossip store on one node) behind a drawn stack of prefix / metrics / multi(mirroring) wrappers; every invocation of f (between the backend's read and its conditional write) and, for consul, every low-level Get/CAS is a scheduling point; functions append, remove, decline, fail, ask for a retry, append-then-decline-on-retry, and decline / fail after scribbling on the object they returned earlier (callers may keep it); low-level errors are injected before commits; with the multi wrapper the secondary store must only ever hold a value that a successful call wrote; the '-starve' scenarios let an aggressor commit between every read and write of a victim; non-trivial = some CAS was retried because another commit landed in between; distinct = distinct released-task sequence hash among non-trivial runs",
     "real": ["kv/consul.Client + mockKV", "kv/etcd.Client + in-process mock", "kv/memberlist.KV + Client (one node, no transport)", "kv.PrefixClient", "kv metrics wrapper", "kv.MultiClient with mirroring", "ring.Desc codec and Merge (register values are ring descriptors)"],
     "stub": ["callers and their functions", "consul low-level fault layer", "hashicorp/memberlist transport (not needed on one node)"],
     "assumptions": _ASSUME_COMMON + ["errors are injected only before a commit: an error after a commit makes every client retry re-apply f (at-least-once by construction), which is not what the statement is about", "for the multi wrapper only the primary path is checked (mirroring is best effort)", "porcupine Unknown (timeout) is inconclusive and counted, never reported"],
@@ -130,7 +130,7 @@ PROPS["C01"] = {
 
 PROPS["C14"] = {
     "world": "ring", "level": "exploration", "quick_s": 20, "thorough_s": 480,
-    "rule": "one evaluation = one lifecycler-driven ring history over a tiny token alphabet (0, 1, 2, 3, 7, 2^31, 2^31+-1, 2^32-4..2^32-1) in 1..4 zones; on every ring version a fresh zone-aware client with RF = number of zones reports GetTokenRangesForInstance for every instance: membership of every boundary key is compared with the owner of that key in the instance's zone (first token strictly after the key), the ranges of a zone must tile [0, 2^32-1] exactly, and on all-ACTIVE healthy rings the real lookup is cross-checked; scenario 'partition-ranges' (real partition lifecyclers + editor + operator-written partitions over the same tiny alphabet) checks GetTokenRangesForPartition of every partition on every stored version the same way (membership vs. owner of the first token strictly after the key, exact tiling, cross-check with ActivePartitionForKey on all-active rings); non-trivial = a state in which some instance owns token 0, 1 or 2^32-1; distinct = distinct released-task/action sequence hash among non-trivial runs",
+    "rule": "one evaluation = one lifecycler-driven ring history over a tiny token alphabet (0, 1, 2, 3, 7, 2^31, 2^31+-1, 2^32-4..2^32-1) in 1..4 zones; on every ring version a fresh zone-aware client with RF = number of zones reports GetTokenRangesForInstance for every instance: membership of every boundary key is compared with the owner of that key in the instance's zone (first token strictly after the key), the ranges of a zone must tile [0, 2^32-1] exactly, and on all-ACTIVE healthy rings the real lookup is cross-checked; scenario 'partition-ranges' (real partition lifecyclers + editor + operator-written partitions over the same tiny alphabet) checks GetTokenRangesForPartition of every partition on every stored version and on 4..16 operator-written miniature rings (1..3 partitions x 0..3 tiny tokens) per run the same way (membership vs. owner of the first token strictly after the key, exact tiling, cross-check with ActivePartitionForKey on all-active rings); non-trivial = a state in which some instance owns token 0, 1 or 2^32-1; distinct = distinct released-task/action sequence hash among non-trivial runs",
     "real": _RING_CLIENT_REAL, "stub": _RING_STUB + ["fresh ring clients read the observed descriptor from a static kv.Client"],
     "assumptions": _ASSUME_COMMON + ["input-shaped property: no schedule dimension of its own; it is evaluated as a cross-invariant on the ring states the simulated lifecyclers and operator reach (DESIGN.md section 6)"],
     "level_text": "seeded exploration of reachable ring states over a boundary-biased token alphabet; ranges vs. ownership and exact tiling checked per state; sampling, not proof",
@@ -211,7 +211,7 @@ _PART_REAL = ["ring.PartitionInstanceLifecycler", "ring.PartitionRingEditor", "r
 _PART_STUB = ["kv seam (worlds/simkv)", "operator writing truthful partitions with small token sets", "instance ring reader (table of healthy / unhealthy / unknown owners)"]
 PROPS["C15"] = {
     "world": "ring", "level": "exploration", "quick_s": 25, "thorough_s": 600,
-    "rule": "one evaluation = one history of 20..120 steps: 1..4 real partition lifecyclers (partitions 0..2, so partitions are shared; wait-owners 0..2 for 0/10/30 s; deletion delay off/20 s/2 min; polling 1/5 s; single- or multi-partition ownership; create-on-startup and remove-owner-on-shutdown drawn) plus an editor (state changes incl. illegal ones, lock/unlock, owner removal) on a ring that an operator pre-populated with 0..16 partitions in all states over a tiny token alphabet (0, 1, 2, 3, 7, 2^31, 2^31+-1, 2^32-4..2^32-1); starts, stops, restarts, explicit state changes, forced CAS retries, lost acks, rejected writes, clock advances 1 s..2 min; every CAS is two scheduling points. Every committed version is attributed to its writer and checked (edge table, lock, creation state, promotion and deletion conditions with the writer's configuration and the commit's virtual time, own-partition exemption); on every version a fresh PartitionRing routes every boundary key (token-1, token, token+1, 0, 2^32-1; <= 64) and the result is compared with a reference walk, incl. ActivePartitionBatchRing.Get and GetKeysByPartition; per-partition replication sets are compared with the healthy registered owners over a drawn instance table; after the faults stop the clock runs for 3 min 10 s and pending partitions with enough old owners must be active, abandoned inactive partitions deleted; non-trivial = at least 4 commits and (an automatic promotion or deletion happened or a routed ring had at least 3 partitions with active and non-active ones); distinct = distinct released-task/action sequence hash among non-trivial runs",
+    "rule": "one evaluation = one history of 20..120 steps: 1..4 real partition lifecyclers (partitions 0..2, so partitions are shared; wait-owners 0..2 for 0/10/30 s; deletion delay off/20 s/2 min; polling 1/5 s; single- or multi-partition ownership; create-on-startup and remove-owner-on-shutdown drawn) plus an editor (state changes incl. illegal ones, lock/unlock, owner removal) on a ring that an operator pre-populated with 0..16 partitions in all states over a tiny token alphabet (0, 1, 2, 3, 7, 2^31, 2^31+-1, 2^32-4..2^32-1); starts, stops, restarts, explicit state changes, forced CAS retries, lost acks, rejected writes, clock advances 1 s..2 min; every CAS is two scheduling points. Every committed version is attributed to its writer and checked (edge table, lock, creation state, promotion and deletion conditions with the writer's configuration and the commit's virtual time, own-partition exemption); on every version a fresh PartitionRing routes every boundary key (token-1, token, token+1, 0, 2^32-1; <= 64) and the result is compared with a reference walk, incl. ActivePartitionBatchRing.Get and GetKeysByPartition; per-partition replication sets (single- and multi-partition ownership) are compared with the healthy registered owners over a drawn instance table, also while the reader's ring is replaced between two calls (the answer must describe one snapshot); 4..16 operator-written miniature rings (1..3 partitions x 0..3 tiny tokens, any states) per run go through the same routing check; after the faults stop the clock runs for 3 min 10 s and pending partitions with enough old owners must be active, abandoned inactive partitions deleted; non-trivial = at least 4 commits and (an automatic promotion or deletion happened or a routed ring had at least 3 partitions with active and non-active ones); distinct = distinct released-task/action sequence hash among non-trivial runs",
     "real": _PART_REAL, "stub": _PART_STUB,
     "assumptions": _ASSUME_COMMON + ["a Pending->Active commit made while the writer has an explicit ChangePartitionState call in flight is treated as explicit (not subject to the owner-count condition)", "bounded progress is only demanded for unlocked partitions and lifecyclers that are running at the end"],
     "level_text": "seeded exploration of lifecycler/editor histories with per-commit attribution and per-version routing / replication-set reference checks; bounded progress after faults stop; sampling, not proof",
